@@ -216,6 +216,8 @@ pub trait Node {
     fn build(&self) -> Build;
     /// `conv_result`: apply the `Result<AisSentence>` conversion (else the `Option` one)
     fn parse(&mut self, line: &[u8], decode: bool, conv_result: bool) -> Outcome;
+    /// the outcome in the textual form the none-only binary prints (fidelity cross-check)
+    fn parse_text(&mut self, line: &[u8], decode: bool) -> String;
     /// `{:?}` of the parser (its only state inspection seam)
     fn state(&self) -> String;
     /// process restart: nothing is durable
@@ -273,6 +275,18 @@ macro_rules! impl_build {
                     let out = self.parse_inner(line, decode, conv_result);
                     evlog($build, line, || format!("{}{}{:?}", decode, conv_result, out));
                     out
+                }
+                fn parse_text(&mut self, line: &[u8], decode: bool) -> String {
+                    let p = &mut self.p;
+                    match guard(move || p.parse(line, decode)) {
+                        Err(_) => "Panic".to_string(),
+                        Ok(Err($krate::errors::Error::Nmea { .. })) => "ErrNmea".to_string(),
+                        Ok(Err($krate::errors::Error::Checksum { expected, found })) => {
+                            format!("ErrChecksum {} {}", expected, found)
+                        }
+                        Ok(Ok(AisFragments::Complete(s))) => format!("Complete {:?}", s),
+                        Ok(Ok(AisFragments::Incomplete(s))) => format!("Incomplete {:?}", s),
+                    }
                 }
                 fn state(&self) -> String {
                     format!("{:?}", self.p)
